@@ -317,6 +317,9 @@ def balance_curly(t):
     return ''.join(out) + '}' * d
 
 
+EMPTY_PAIR_RATE = 0.15      # share of attribute lists / text nodes / (half of it) groups generated EMPTY: [] {} ()
+
+
 class AbbrGen:
     def __init__(self, rng, wild=False):
         self.rng = rng
@@ -362,9 +365,15 @@ class AbbrGen:
             elif r < 0.5:
                 s += '#' + rng.choice(IDENTS)
             elif r < 0.78:
-                s += '[' + ' '.join(self.attr() for _ in range(rng.randint(1, 3))) + ']'
+                if rng.random() < EMPTY_PAIR_RATE:     # empty attribute list, written explicitly
+                    s += rng.choice(['[]', '[]', '[ ]'])
+                else:
+                    s += '[' + ' '.join(self.attr() for _ in range(rng.randint(1, 3))) + ']'
             else:
-                s += '{' + self.text() + '}'
+                if rng.random() < EMPTY_PAIR_RATE:     # empty text node (also the state while typing p{|})
+                    s += '{}'
+                else:
+                    s += '{' + self.text() + '}'
         if not s:
             s = rng.choice(NAMES)
         r = rng.random()
@@ -381,7 +390,7 @@ class AbbrGen:
         parts = []
         for _ in range(rng.randint(1, 4)):
             if depth < 2 and rng.random() < 0.15:
-                g = '(' + self.markup(depth + 1) + ')'
+                g = '()' if rng.random() < EMPTY_PAIR_RATE / 2 else '(' + self.markup(depth + 1) + ')'
                 if rng.random() < 0.4:
                     g += '*' + str(rng.randint(1, 5))
                 parts.append(g)
@@ -411,7 +420,7 @@ class AbbrGen:
             return '$' + rng.choice(['a', 'foo', 'x-y'])
         if self.wild or rng.random() < 0.3:
             return rng.choice(['lg(#fff,#000)', 'rgb(0, 0, 0)', 'lg(top, a)', 'f(a)']) if self.wild else \
-                rng.choice(['f(a)', 'lg(a)', 'c(#f00)', 'g(1)'])
+                rng.choice(['f(a)', 'lg(a)', 'c(#f00)', 'g(1)', 'f()'])
         return str(rng.randint(1, 9))
 
     def css_prop(self):
@@ -542,13 +551,173 @@ def gen_tag(rng):
     return s + '>'
 
 
+# ------------------------------------------------------------------ prefix round trip (prefix search)
+# The statement proved on the model (C11_extract_roundtrip_prefix_partial) puts NO condition on the text
+# left of the prefix: whatever precedes it -- unmatched or matched brackets of every kind, quotes, tags,
+# earlier occurrences of the prefix (whole or in part), an earlier prefixed abbreviation -- the
+# abbreviation directly right of the prefix comes back exactly, with start at the prefix.  Its conditions
+# are on the prefix and the abbreviation only (prefix_rt_applicable).
+PREFIXES_RICH = ['!', '&&', '>>>', '<', '@@', 'em:', '::', '$', '=', '{', '[', '(', '! ', 'x-', '</', 'é', '٣x', '"', "]'", '}!',
+                 '{{', '[!', '-- ']
+
+# shapes of bracket pairs as the prefix search meets them walking left from the caret: none, empty,
+# non-empty, nested, adjacent, empty inside non-empty, a pair followed by more text
+PREFIX_SHAPES = ['p', 'p{}', 'a[]', 'p{x}', 'a[b]', 'a[]{}', 'ul>li{}', 'a[b=""]{}', 'p{a{b}}', 'p{{}}', '(a[])', 'a()',
+                 'p{}+q{y}', 'a[b]{c}*2>d[]', 'p{[a]}', 'a[b="{}"]', '{}', 'a[]>b', 'p{}*3']
+PREFIX_SHAPES_CSS = ['m10', 'f()', 'c(#f00)', 'p10+m(a)']
+
+# alphabet of the exhaustive left texts ('P' = the whole prefix, 'Q' = its last character)
+BEFORE_ALPHA = ['{', '}', '[', ']', '(', ')', ' ', 'a', '"', 'P', 'Q']
+
+BEFORE_FRAGS = ['{', '}', '[', ']', '(', ')', '{', '[', '{}', '[]', '()', '{x}', '[a]', '(b)', 'fn(){ ', 'x[0] ', 'arr[i] = [ ',
+                'a{b} ', '<i class={c}> ', 'if (x) { ', '} else { ', '];', '});', 'p{', 'a[', 'a[b="', ' ', '\t', '\n', 'foo',
+                '<div>', '</p>', '<br />', '"', "'", 'a="b"', '\\', 'ul>li', '>', '+', 'é', '٣', '${', '{{ x }}', '[[', ']]']
+
+
+def prefix_rt_applicable(abbr, prefix):
+    """The conditions of the prefix round trip: the last character of the prefix is not ] } or a
+    backslash and does not occur in the abbreviation, and the first ] / } of the abbreviation (hence
+    every one) has a [ / { somewhere to its left inside the abbreviation."""
+    x = prefix[-1:]
+    if not x or x in ']}\\' or x in abbr:
+        return False
+    for cl, op in ((']', '['), ('}', '{')):
+        i = abbr.find(cl)
+        if i >= 0 and op not in abbr[:i]:
+            return False
+    return True
+
+
+def before_kind(before, prefix):
+    """bucket of a text left of the prefix, for the coverage record"""
+    ks = []
+    for op, cl, nm in (('{', '}', 'curly'), ('[', ']', 'square')):
+        d = 0
+        un_open = un_close = False
+        for c in before:
+            if c == op:
+                d += 1
+            elif c == cl:
+                if d:
+                    d -= 1
+                else:
+                    un_close = True
+        un_open = d > 0
+        if un_open:
+            ks.append('unmatched-open-' + nm)
+        if un_close:
+            ks.append('unmatched-close-' + nm)
+        if op in before and not un_open and not un_close:
+            ks.append('matched-' + nm)
+    if prefix and prefix in before:
+        ks.append('earlier-prefix')
+    elif prefix and (prefix[-1] in before):
+        ks.append('part-of-prefix')
+    return ks or ['no-bracket']
+
+
+def pair_kinds(abbr):
+    ks = []
+    for e, nm in (('{}', 'empty-curly'), ('[]', 'empty-square'), ('()', 'empty-round')):
+        if e in abbr:
+            ks.append(nm)
+    if not ks and any(c in abbr for c in '{[('):
+        ks.append('non-empty-pairs-only')
+    return ks or ['no-pair']
+
+
+def rand_before(rng, prefix, abbr, others):
+    """a random text left of the prefix: code-like fragments with brackets of every kind, matched and
+    unmatched, whole and partial earlier occurrences of the prefix, an earlier prefixed abbreviation"""
+    dyn = [prefix, prefix, prefix[:-1], prefix[1:], prefix[-1], prefix + rng.choice(others) + ' ',
+           prefix + abbr + ' ', abbr, prefix + 'x{ ', prefix + 'y[ ', prefix + abbr[:max(1, len(abbr) // 2)]]
+    out = []
+    for _ in range(rng.randint(0, 4)):
+        out.append(rng.choice(dyn) if rng.random() < 0.3 else rng.choice(BEFORE_FRAGS))
+    return ''.join(out)
+
+
+def _carets(abbr, markup, right, all_tails, rng):
+    """(back, lookAhead) pairs: caret at the end with and without look-ahead, and before an
+    auto-closed tail (one quote + closing brackets) with look-ahead"""
+    closers = CLOSERS if markup else ')'
+    out = [(0, True), (0, False)]
+    tails = auto_closed_tail(abbr, markup)
+    if tails and not (right[:1] and right[0] in closers):
+        out += [(b, True) for b in (tails if all_tails else [rng.choice(tails)])]
+    return out
+
+
+def prefix_rt_exhaustive(rng, max_len):
+    """every left text of length <= max_len over BEFORE_ALPHA x the bracket-pair shapes x prefixes x
+    caret (end / before each auto-closed tail) x look-ahead"""
+    out = []
+    k = 0
+    for markup, shapes in ((True, PREFIX_SHAPES), (False, PREFIX_SHAPES_CSS)):
+        ty = 'markup' if markup else 'stylesheet'
+        for abbr in shapes:
+            for p in ('!', '&&'):
+                if not prefix_rt_applicable(abbr, p):
+                    continue
+                for n in range(0, max_len + 1):
+                    for tup in itertools.product(BEFORE_ALPHA, repeat=n):
+                        before = ''.join(p if c == 'P' else p[-1] if c == 'Q' else c for c in tup)
+                        k += 1
+                        rk, right = RIGHTS[k % len(RIGHTS)] if k % 3 == 0 else RIGHTS[0]
+                        for back, look in _carets(abbr, markup, right, True, rng):
+                            out.append(RT(before + p, abbr, right, back, {'type': ty, 'lookAhead': look, 'prefix': p},
+                                          'prefix-exhaustive', ('auto-closed+' if back else '') + rk))
+    return out
+
+
+def prefix_rt_random(rng, abbr, markup, others, n):
+    """n random embeddings of one abbreviation right of a prefix"""
+    ty = 'markup' if markup else 'stylesheet'
+    usable = [p for p in PREFIXES_RICH if prefix_rt_applicable(abbr, p)]
+    out = []
+    if not usable:
+        return out
+    for _ in range(n):
+        p = rng.choice(usable)
+        before = rand_before(rng, p, abbr, others)
+        rk, right = rng.choice(RIGHTS)
+        back, look = rng.choice(_carets(abbr, markup, right, False, rng))
+        out.append(RT(before + p, abbr, right, back, {'type': ty, 'lookAhead': look, 'prefix': p},
+                      'prefix-random', ('auto-closed+' if back else '') + rk))
+    return out
+
+
 # consistency stream
-EX_ALPHA = list('a1>+*^()[]{}"\'</= .\\') + ['-']
+EX_ALPHA =list('a1>+*^()[]{}"\'</= .\\') + ['-']
 FRAGS = ['ul>li', 'a', 'div', '[', ']', '(', ')', '{', '}', '"', "'", '<', '>', '</', '/>', '=', ' ', '\t', '*3', '*', '+', '^',
          '.c', '#i', 'a=b', 'a="b c"', "x='y'", '\\', '\\"', '<div>', '<a href="x">', '</p>', '<br />', 'title=x', '$', '@',
          '!', ':', '-', '_', '%', '/', 'é', '٣', ' ', '\n', ',', ';', '?', '&&', '{x}', '[a]', '(b)', '{}', '[]', '()',
          '"]', '"}', "')"]
 OPT_PREFIXES = ['', '', '<', '>>', 'a', '[', '}', '\\', '="', 'ab']
+
+
+# look-ahead tails: text left of the caret that leaves brackets / a quote open (so that the backward scan
+# can succeed once look-ahead has moved the end), then EVERY run of quotes, closing brackets and other
+# characters right of the caret.  The statement allows look-ahead to cross one quote and then closing
+# brackets only.
+LA_LEFTS = ['a[b="', 'a[b=', "a[b='c", 'a{b', 'a{b[c', '(a', '(a[b="c', 'a{"b', 'ul>li[a="x" b="', 'm(', 'a', '']
+LA_ALPHA = ['"', "'", ')', ']', '}', ' ', 'x']
+LA_RESTS = ['', ' y']
+
+
+def lookahead_tail_cases(max_len):
+    out = []
+    k = 0
+    for left in LA_LEFTS:
+        for n in range(0, max_len + 1):
+            for tup in itertools.product(LA_ALPHA, repeat=n):
+                tail = ''.join(tup)
+                k += 1
+                line = left + tail + LA_RESTS[k % len(LA_RESTS)]
+                out.append((line, len(left), {'type': 'markup', 'lookAhead': True}))
+                out.append((line, len(left), [{'type': 'stylesheet', 'lookAhead': True}, {'type': 'markup', 'lookAhead': False},
+                                              {'type': 'markup'}, {'type': 'stylesheet', 'lookAhead': False}][k % 4]))
+    return out
 
 
 def positions(line, rng=None):
